@@ -50,6 +50,7 @@ class Result:
         self.samples = []
         self.lemmas = []
         self.params = {}
+        self.witnesses = {}
 
     def ok(self):
         if self.unsupported:
@@ -194,6 +195,29 @@ class ScenarioInterp(Interp):
             eqs = [self.inputs[k] == v for k, v in hint.items() if k in self.inputs]
             r = self.ctx.check(z3.And(*eqs)) if eqs else r
         self.result.covers[label] = (r == 'sat')
+        if r == 'sat' and label not in self.result.witnesses and getattr(self, '_wit_req', None) is None:
+            # a concrete witness of this path is taken when the path ends (all observables registered): see finish_witness
+            self._wit_req = (label, hint)
+
+    def finish_witness(self):
+        """at the end of a path that reached a cover point: a concrete model of the whole path (inputs + every predicted observable),
+        replayed natively afterwards as a fidelity run of the translator"""
+        req = getattr(self, '_wit_req', None)
+        if req is None or req[0] in self.result.witnesses:
+            return
+        label, hint = req
+        r = 'unknown'
+        if hint:
+            eqs = [self.inputs[k] == v for k, v in hint.items() if k in self.inputs]
+            if eqs:
+                r = self.ctx.check(z3.And(*eqs))
+        if r != 'sat':
+            r = self.ctx.check()
+        if r == 'sat':
+            try:
+                self.result.witnesses[label] = self.model_values()
+            except Exception:
+                pass
 
     def finding_active(self, fid):
         """is the open known finding `fid` still reproducing natively on the current tree?"""
@@ -298,6 +322,7 @@ def explore(prog, name, scenario, opts=None, max_paths=20000, declare_covers=())
         try:
             scenario(I)
             res.paths += 1
+            I.finish_witness()
         except Infeasible:
             res.infeasible += 1
         except Unsupported as e:
